@@ -1660,7 +1660,9 @@ def _norm_site(site):
 def _site_kind(site):
     """Obligation class of a reviewed-site key: `assert:Overflow(Add)`, `cast:usize->u16`, `unwrap`, `panic`, `index`, ..."""
     m = re.match(r"(assert:[^:]+|cast:[^:]+|[^:]+)", site)
-    return m.group(1) if m else site
+    k = m.group(1) if m else site
+    # indexing a Vec (Index::index call) and indexing a slice / array (inline bounds check) are the same obligation
+    return "bounds" if k in ("index", "assert:BoundsCheck") else k
 
 
 def _root_fn_name(name):
@@ -1750,7 +1752,7 @@ def check_panic_freedom(prog, rule, roots, prop, scope_crates=("rustybgp_packet"
                     and (e["fn"] == nm or e["fn"] == _root_fn_name(nm) or _root_fn_name(e["fn"]) == nm)]
             for okey, kind in open_keys:
                 for rk1 in pool:
-                    if _site_kind(reviewed[rk1]["site"]) == kind:
+                    if _site_kind(reviewed[rk1]["site"]) == _site_kind(kind + ":"):
                         fallback[okey] = rk1
                         pool.remove(rk1)
                         claimed.add(rk1)
